@@ -74,10 +74,13 @@ class Skein(object):
         # leaf level (0):
         Mi = []
         Ts = Tweak(TreeLevel=1,Type='msg')
+        # (a bit length ends the message inside its last leaf)
+        if bitlen is not None: M = M[:(bitlen+7)//8]
         # (an empty message still has one, empty, leaf)
         for i in range(0,len(M) or 1,Nl):
             m = M[i:i+Nl]
-            Mi.append(UBI(Threefish,self.G,Ts)(m))
+            lm = None if (bitlen is None or i+Nl<len(M)) else bitlen-8*i
+            Mi.append(UBI(Threefish,self.G,Ts)(m,lm))
             # spec for treehash is different from update
             # where Position evolves prior to UBI call...
             Ts.Position += Nl
